@@ -16,12 +16,13 @@ CONSTANTS
   LayerTab,  \* Seq (layer+1) of [real : code -> id, fake : Seq(id)]
   SrcTab,    \* code -> id   (defsrc fallback)
   Opts,      \* [trans_v2, delegate, concurrent_tap_hold, rapid_event_delay, ...]
-  Caps       \* [queue, states, extra, actionq, oneshot, seqs, stack, hist, age]
+  Caps       \* [queue, states, extra, actionq, oneshot, seqs, stack, hist, age, since]
 
 Min(a, b) == IF a < b THEN a ELSE b
 Max(a, b) == IF a > b THEN a ELSE b
 SatSub(a, b) == IF a > b THEN a - b ELSE 0
-CapAdd1(a) == Min(a + 1, Caps.age)      \* saturating_add(1), abstracted cap (DESIGN 4.3)
+CapAdd1(a) == Min(a + 1, Caps.age)      \* saturating_add(1) of history ages / idle ticks, abstracted cap (DESIGN 4.3)
+SinceAdd1(a) == Min(a + 1, Caps.since)  \* saturating_add(1) of `since` / `ticks` (65535 = the real u16 saturation)
 
 \* ----- generic sequence helpers -------------------------------------------------
 FilterSeq(s, P(_)) == SelectSeq(s, P)
@@ -388,7 +389,7 @@ HandleChord(w, queue, aq) ==
 
 \* src: tick_wt 460-502.  returns [w, queue, aq, res, pq, somepq]
 TickWt(w0, queue, aq) ==
-  LET w == [w0 EXCEPT !.timeout = SatSub(@, 1), !.ticks = CapAdd1(@)] IN
+  LET w == [w0 EXCEPT !.timeout = SatSub(@, 1), !.ticks = SinceAdd1(@)] IN
   CASE w.k = "ht" ->
          LET r == HandleHoldTap(w, queue) IN
          [w |-> r.w, queue |-> queue, aq |-> aq, res |-> r.res, pq |-> <<>>, somepq |-> FALSE]
@@ -744,7 +745,7 @@ OsReleaseAll(L, keys, ce) ==
        OsReleaseAll(r.L, Tail(keys), CeUpdate(ce, r.ce))
 
 TickMain(L0) ==     \* everything after the action-queue early return
-  LET L1 == [L0 EXCEPT !.queue = [i \in DOMAIN @ |-> [@[i] EXCEPT !.s = CapAdd1(@)]],
+  LET L1 == [L0 EXCEPT !.queue = [i \in DOMAIN @ |-> [@[i] EXCEPT !.s = SinceAdd1(@)]],
                        !.lpt = SatSub(@, 1)]
       L2 == IF L1.tde = <<>> THEN L1
             ELSE LET t == [L1.tde[1] EXCEPT !.timeout = SatSub(@, 1)] IN
